@@ -222,6 +222,9 @@ class World:
         add("a", [(1, 3), (2, 4), (4, 5), (6, 7), (6, 8)], 9, 1, 8, [0, 4, 6, 9])
         # run S: same shape on the 2**-9 s grid, run start not on a whole second (seconds_range, time_within)
         add("s", [(1, 3), (2, 4), (4, 5), (6, 7), (6, 8)], 9, U, 3 * 10**9 + 10 * U, [0, 4, 6, 9])
+        # run E: same shape at a realistic unix-epoch start (> 2**53 ns): data begins 500 ns after a whole second, so the
+        # run start used by seconds_range is 1.7e18 and float arithmetic on absolute times has a ~256 ns grid
+        add("e", [(1, 3), (2, 4), (4, 5), (6, 7), (6, 8)], 9, 1, 1_700_000_000 * 10**9 + 500, [0, 4, 6, 9])
         # random runs
         for j in range(n_random):
             rows = gen.gen_rows(rng, rng.randint(3, 8), max_len=3)
@@ -298,6 +301,16 @@ class World:
         for lay in ("orig", "tiny", "giant"):
             b.update(_CUTS[lay][run])
         return sorted(b)
+
+    def exact_secs(self, run):
+        """seconds-since-run-start (reduced fractions n/d) of every endpoint whose float conversion is exact"""
+        t0run = (_RUNS[run]["start"] // 10**9) * 10**9
+        out = []
+        for p in self.endpoints(run):
+            m = Fraction(p - t0run, 10**9)
+            if sec_exact((m.numerator, m.denominator)):
+                out.append((m.numerator, m.denominator))
+        return out
 
     def endpoints(self, run):
         """on, just inside and just outside every boundary (half-grid step), plus points well outside the run"""
@@ -432,15 +445,13 @@ def targs_kwargs(ta):
 
 
 def sec_exact(frac):
-    """is int(1e9 * float(frac)) the exact truncation?"""
+    """does the clean float expression int(1e9 * (n / d)) give the exact truncation of 1e9 * n/d ?
+    (true for dyadic values and for most k/1e9; only such values are generated, so the intended
+    endpoint `t0 + trunc(1e9 * s)` is computable with Python ints / Fractions)"""
     n, d = frac
-    f = n / d
-    if Fraction(f) != Fraction(n, d):
-        return False
-    exact = Fraction(10**9) * Fraction(n, d)
-    if Fraction(1e9 * f) != exact:
-        return False
-    return True
+    x = Fraction(10**9) * Fraction(n, d)
+    exact = int(x) if x >= 0 else -int(-x)
+    return int(1e9 * (n / d)) == exact
 
 
 def abs_range(ta, run):
@@ -989,16 +1000,10 @@ def _run(ctx, rng):
 
     # ---- 2. to_absolute_time_range on the stored runs
     cases = []
-    for run_id in ("a", "s"):
+    for run_id in ("a", "s", "e"):
         pts = W.endpoints(run_id)
         r = _RUNS[run_id]
-        t0run = (r["start"] // 10**9) * 10**9
-        secs = []
-        for p in pts:
-            m = Fraction(p - t0run, 10**9)
-            if sec_exact((m.numerator, m.denominator)):
-                secs.append((m.numerator, m.denominator))
-        secs += [(-1, 512), (-3, 2), (0, 1), (7, 4)]
+        secs = W.exact_secs(run_id) + [(-1, 512), (-3, 2), (0, 1), (7, 4)]
         for _ in range(ctx.pick(150, 1500)):
             ta = {}
             kinds = rng.choice([["tr"], ["sr"], ["tw"], ["tr", "sr"], ["sr", "tw"], ["tr", "tw"], ["tr", "sr", "tw"], []])
@@ -1015,7 +1020,7 @@ def _run(ctx, rng):
             cases.append(dict(run=run_id, layout=rng.choice(["orig", "tiny", "giant"]), target=rng.choice(["src", "dep"]), ta=ta))
     ctx.correspond("to_absolute_time_range", cases, impl_abs, op_abs, oracle_abs,
                    nontrivial=lambda c, o: bool(c["ta"]),
-                   rule="stored runs `a` (ns grid) and `s` (2^-9 s grid, run start not on a whole second): time_range / seconds_range (exact dyadic values, also negative) / "
+                   rule="stored runs `a` (ns grid), `s` (2^-9 s grid, run start not on a whole second) and `e` (ns grid at a unix-epoch run start 1.7e18 > 2^53): time_range / seconds_range (exact dyadic values, also negative) / "
                         "time_within (rows of two dtypes) alone, in pairs (later one wins) and all three (RuntimeError)",
                    branch=lambda c, o: "+".join(k for k in ("tr", "sr", "tw") if k in c["ta"]) + ":" + o.split(" ")[0])
 
@@ -1093,16 +1098,16 @@ def _run(ctx, rng):
         fields = list(full.dtype.names)
         ident = [c for c in ("id", "val") if c in fields]
         ta = {}
-        kind = rng.choice(["tr", "tr", "sr", "tw", "tw", "none", "tr+sr", "all3"]) if run_id == "s" else rng.choice(["tr", "tr", "tr", "tw", "none"])
+        kind = rng.choice(["tr", "tr", "sr", "tw", "tw", "none", "tr+sr", "all3"]) if run_id in ("s", "e") else rng.choice(["tr", "tr", "tr", "tw", "none"])
         if kind in ("tr", "tr+sr", "all3"):
             a, b = rng.choice(pts), rng.choice(pts)
             if rng.random() < 0.9:
                 a, b = min(a, b), max(a, b)
             ta["tr"] = [a, b]
         if kind in ("sr", "tr+sr", "all3"):
-            t0run = (r["start"] // 10**9) * 10**9
-            pair = sorted((rng.choice(pts), rng.choice(pts)))
-            ta["sr"] = [[(p - t0run) // U, 512] for p in pair]
+            secs = W.exact_secs(run_id)
+            pair = sorted((rng.choice(secs), rng.choice(secs)), key=lambda f: Fraction(*f))
+            ta["sr"] = [list(f) for f in pair]
         if kind in ("tw", "all3"):
             if rng.random() < 0.5:
                 row = rng.choice(r["rows"])
@@ -1122,6 +1127,27 @@ def _run(ctx, rng):
                         "selection as string / list of strings / callable x keep_columns / drop_columns (unknown names, both at once, bare string)",
                    branch=lambda c, o: ("+".join(kk for kk in ("tr", "sr", "tw") if kk in c["ta"]) or "none") + ":" + c["mode"] + ":" +
                                        ("sel" if c["pred"] != "-" else "-") + ":" + ("keep" if c["keep"] else ("drop" if c["drop"] else "-")) + ":" + o.split(" ")[0])
+    _SIDE.clear()
+
+    # 4b' seconds_range on the epoch-scale run: ALL pairs of exactly convertible endpoints (on / 1 ns inside / 1 ns outside every
+    #     row and chunk boundary), and the same endpoints as absolute time_range / time_within for symmetry
+    cases = []
+    secs = sorted(W.exact_secs("e"), key=lambda f: Fraction(*f))
+    t0e = (_RUNS["e"]["start"] // 10**9) * 10**9
+    for j, (sa, sb) in enumerate((x, y) for x in secs for y in secs if Fraction(*x) < Fraction(*y)):
+        lay, tg = [("orig", ("src",)), ("tiny", ("dep",)), ("giant", ("src",)), ("mix_gt", ("src", "dep"))][j % 4]
+        for mode in ("fc", "to"):
+            cases.append(base_case(next(k), "e", lay, tg, "single_thread", {"sr": [list(sa), list(sb)]}, mode))
+        a_ns, b_ns = t0e + int(Fraction(10**9) * Fraction(*sa)), t0e + int(Fraction(10**9) * Fraction(*sb))
+        if j % 3 == 0:
+            cases.append(base_case(next(k), "e", lay, tg, "single_thread", {"tr": [a_ns, b_ns]}, ("fc", "to")[j % 2]))
+        if j % 3 == 1:
+            cases.append(base_case(next(k), "e", lay, tg, "single_thread", {"tw": [a_ns, b_ns], "tw_enc": ("end", "len")[j % 2]}, ("fc", "to")[j % 2]))
+    ctx.correspond("get_array/seconds-epoch", cases, impl_get, op_get, oracle_get, nontrivial=nontrivial_get, exhaustive=True,
+                   rule="stored run `e` (first chunk at 1.7e18 + 500 ns, so run start = 1.7e18 > 2^53): seconds_range with ALL pairs of endpoints on / 1 ns inside / "
+                        "1 ns outside every row and chunk boundary whose float conversion int(1e9*s) is exact (expected endpoints computed with Fractions) x both modes, "
+                        "rotating layouts / targets; every third pair also as absolute time_range resp. time_within",
+                   branch=lambda c, o: ("+".join(kk for kk in ("tr", "sr", "tw") if kk in c["ta"])) + ":" + branch_get(c, o))
     _SIDE.clear()
 
     # 4c the full result itself must not depend on layout or processor
